@@ -578,3 +578,21 @@ package leveldb
 //@   requires !overlapped ==> sortedDisjoint(tf)
 //@   guarantees [C01,C06:overlap-search-exact] (!overlapped && len(tf) > 0) ==> (0 <= begin && end <= len(tf) && forall i int :: 0 <= i && i < len(tf) ==> (ovl(tf[i], umin, umax) <==> (begin <= i && i < end)))
 //@   guarantees [C01,C06:result-is-that-range] (!overlapped && len(tf) > 0) ==> (begin < end ==> len(result) == end - begin && forall j int :: 0 <= j && j < end - begin ==> result[j] == tf[begin + j])
+
+// ---------------------------------------------------------------------------
+// C04: recovery itself can crash. A replayed journal file may only be removed after a manifest commit that
+// succeeded later than the last batch replayed from it (the commit carries the flushed tables, the number of the
+// journal that takes over and the sequence number reached), so that a crash during recovery never loses synced
+// writes.
+//@ count decodeBatchToMem
+//@ func (*DB).recoverJournal
+//@   props C04
+//@   mode bv
+//@   at before call (*session).commit#1
+//@     assert [C04:recovery-commit-carries-numbers] recHas(rec.hasRec, recJournalNum) && recHas(rec.hasRec, recSeqNum) && rec.journalNum == fd.Num && rec.seqNum == db.seq
+//@   at before call (*session).commit#2
+//@     assert [C04:recovery-commit-carries-numbers] recHas(rec.hasRec, recJournalNum) && recHas(rec.hasRec, recSeqNum) && rec.journalNum == db.journalFd.Num && rec.seqNum == db.seq
+//@   at before call storage.Storage.Remove#1
+//@     assert [C04:journal-removed-only-after-its-commit] lastok("(*session).commit") > last("decodeBatchToMem")
+//@   at before call storage.Storage.Remove#2
+//@     assert [C04:journal-removed-only-after-its-commit] lastok("(*session).commit") > last("decodeBatchToMem")
